@@ -6,6 +6,7 @@
 //	           data.regal.main._file_name_relative_to_root, evaluated by OPA on the real embedded bundle
 //	oracle   : gobwas/glob compiled with separator '/' directly from the library (independent of /repo)
 //	end2end  : linter.Lint with global / per-rule ignores for a built-in, a custom and a custom aggregate rule
+//	walk     : directory arguments on real trees (walk.go)
 //
 // usage: c05 <out.jsonl> <tier> <workdir> [replay.json]
 package main
@@ -1312,10 +1313,12 @@ func main() {
 	lap("bulk")
 	smallCases(out, o, rng, tier, all)
 	lap("small")
-	walkCases(out, o, rng, tier, work)
-	lap("walk")
+	finishWalk := walkCases(out, o, rng, tier, work)
+	lap("walk-seq")
 	lintCases(out, o, rng, tier, work)
 	lap("lint")
+	finishWalk()
+	lap("walk")
 }
 
 var t0 = time.Now()
